@@ -24,6 +24,9 @@ PREDICATES = [
     dict(tag="defunit", pred="CatRow.defaultUnitOk {db}", imports=["Barril.Model.Ctor"], kinds=["posc"], over="cats"),
     dict(tag="symplain", pred="UnitRow.symPlain", imports=["Barril.Model.Ctor"], kinds=["posc"], over="units"),
     dict(tag="catplain", pred="CatRow.namePlain", imports=["Barril.Model.Ctor"], kinds=["posc"], over="cats"),
+    # C14: the shipped tables are well-formed registries (symbols, base rows, categories), row by row
+    dict(tag="reg14u", pred="UnitRow.regOk {db}", imports=["Barril.Model.RegTable"], kinds=["posc", "simple"], over="units"),
+    dict(tag="reg14c", pred="CatRow.regOk {db}", imports=["Barril.Model.RegTable"], kinds=["posc", "simple"], over="cats"),
     dict(tag="valshape", pred="UnitRow.valShape", imports=["Barril.Model.Valid"], kinds=["posc", "nocat"], over="units"),
 ]
 
